@@ -27,11 +27,19 @@ theorem escapes_total (cs : List Char) : ¬ (applyEscapes cs).isPanic :=
 theorem escapes_plain (cs : List Char) (h : ∀ c ∈ cs, c ≠ '\\') : applyEscapes cs = .ok cs :=
   applyEscapesAux_plain _ cs h (Nat.le_succ _)
 
+/-- every token text the grammar rule `NUMBER_ANY` can produce (hex, binary, decimal with fraction and
+exponent, `_` separators anywhere the grammar allows them) is handled by the number-literal handler without
+reaching its `panic!("… is not a number")` -/
+theorem number_total (s : List Char) (h : isNumberAny s = true) : ¬ (numberLiteral s).isPanic :=
+  numberLiteral_total s h
+
+example : isNumberAny "0x_1F".toList = true ∧ isNumberAny "1_0._5e-0_3".toList = true := by decide
+
 /-- an integer-shaped literal (digits with `_` separators) is an int — never a float, never a panic —
 whose value is that of its digits, whatever its magnitude -/
 theorem number_int_stays_int (d : Char) (rest : List Char) (hd : isDigit d = true)
     (hr : rest.all isNumDigit = true) :
-    numberLiteral (d :: rest) = .ok (.int (radixVal 10 ((d :: rest).filter (· ≠ '_')))) :=
+    numberLiteral (d :: rest) = .ok (.int (radixVal 10 (stripUs (d :: rest)))) :=
   number_int d rest hd hr
 
 /-- … where the value is positional: appending a digit multiplies by the radix and adds the digit -/
